@@ -11,6 +11,7 @@ import (
 	_ "package-operator.run/internal/packages/zzverif/checks/c07"
 	_ "package-operator.run/internal/packages/zzverif/checks/c08"
 	_ "package-operator.run/internal/packages/zzverif/checks/c09"
+	_ "package-operator.run/internal/packages/zzverif/checks/c10"
 	_ "package-operator.run/internal/packages/zzverif/checks/c11"
 	_ "package-operator.run/internal/packages/zzverif/checks/c12"
 	_ "package-operator.run/internal/packages/zzverif/checks/c13"
